@@ -20,6 +20,7 @@ import RosuModel.Model.ClockRate
 import RosuModel.Model.PerfCalcWire
 import RosuModel.Model.OsuSkillWire
 import RosuModel.Model.FullPerfWire
+import RosuModel.Model.PipelineOsuWire
 import RosuModel.Model.SliderEventsWire
 import RosuModel.Model.ManiaPatternWire
 import RosuModel.Model.ConvOsuWire
@@ -110,6 +111,7 @@ def handle (line : String) : String :=
   | ["TKPRE", clock, take, objs] => TaikoPre.handleTKPRE clock take objs
   | ["PIPE", "maniac", keys, hp, cs, od, ar, cd, clock, take, ho, inv, gidx, timing, objs] =>
     PipelineManiaConvert.Wire.handlePIPEMC keys hp cs od ar cd clock take ho inv gidx timing objs
+  | "PIPE" :: "osu" :: args => PipelineOsu.Wire.handlePIPEO args
   | ["PIPE", "catch", version, sm, tr, hr, refl, cs, ar, clock, conv, take, gidx, objs] =>
     PipelineCatch.Wire.handlePIPEC version sm tr hr refl cs ar clock conv take gidx objs
   | _ => "bad-op"
